@@ -188,7 +188,7 @@ class TU:
             f = self.sexp(inner[0])
             return ("call", f[1] if f[0] == "fn" else f, tuple(self.sexp(a) for a in inner[1:]))
         if k == "BinaryOperator" or k == "CompoundAssignOperator":
-            return ("bin", n.get("opcode"), self.sexp(inner[0]), self.sexp(inner[1]))
+            return ("bin", n.get("opcode"), self.sexp(inner[0]), self.sexp(inner[1]), self.type_bits(n.get("type", {})))
         if k == "UnaryOperator":
             return ("un", n.get("opcode"), self.sexp(inner[0]), n["type"].get("qualType"))
         if k == "UnaryExprOrTypeTraitExpr":
